@@ -30,7 +30,11 @@ META = dict(
                 '<node>, <visual_scene>, lights, cameras, <effect>/<profile_COMMON>/shaders, <material>, <image>, <asset>, <scene> and the instance elements is in the '
                 'language of the content model of that element (emit_*_valid), the models being regular expressions generated from schema-1.4.1.xml; '
                 'the generated table is validated against Xerces on random trees, the emitter functions against real written documents, and every written '
-                'document of the exploration is validated by Xerces (the "independent XSD processor") and its bookkeeping recounted.'),
+                'document of the exploration is validated by Xerces (the "independent XSD processor") and its bookkeeping recounted. '
+                'Pyc/Props/C04c.lean adds the save side for LOADED elements after any edit history: what Effect.save leaves below <technique> and <profile_COMMON>, '
+                'MaterialNode.save below <instance_material>, Geometry.save below <mesh> matches the content model (save_technique_valid, profile_valid_after_save, '
+                'instance_material_valid, mesh_valid_after_save), with the managed/before arguments of the _syncChildren calls regenerated from the source '
+                '(translators/sync_calls.py, calls_in_source, *_src theorems) and the real save methods driven on generated elements.'),
     level_note=('Trusted: Lean kernel + standard axioms; translators/xsd_table.py (XSD subset: sequence/choice/group/extension/minOccurs/maxOccurs/xs:any; identity constraints and '
                 'simple-type facets are NOT translated, they are checked by Xerces only); Mathlib\'s RegularExpression; the JDK\'s Xerces; vlib/modelgen.py in schema mode and '
                 'the schema-respecting edit normaliser of this file define "content that respects the schema\'s value constraints". lxml is absent, so pycollada\'s own '
